@@ -394,8 +394,13 @@ SibChoices == {NoSib} \cup (IF ~Siblings THEN {}
 InitGc == /\ phase = 0 /\ decl \in DagsOf(SliceK, SliceI)
           /\ par = NoPar /\ up = FALSE /\ prov = NoProv /\ req = NoReq /\ role = AllLib /\ sib = NoSib
           /\ res = decl /\ aux = <<>> /\ dist = <<>> /\ qs = {} /\ sps = {}
+\* with Provides one require/provide entry is enumerated as well: a kept target that requires the language is built
+\* against the provided target (res), which the property protects like any other dependency (DepsOf = decl \cup res)
 PickGc == /\ phase = 0 /\ phase' = 1
-          /\ UNCHANGED <<decl, prov, req, res, aux, dist, qs, sps>>
+          /\ UNCHANGED <<decl, aux, dist, qs, sps>>
+          /\ \E pc \in ProvChoices :
+               /\ prov' = pc[1] /\ req' = pc[2]
+               /\ res' = [u \in Nodes |-> {IF pc[2][u] /\ pc[1][d] # 0 THEN pc[1][d] ELSE d : d \in decl[u]}]
           /\ par' \in Pars
           /\ up' \in (IF Upper THEN BOOLEAN ELSE {FALSE})
           /\ role' \in [Nodes -> Roles]
@@ -417,6 +422,7 @@ GcClass == IF MustKeep = {} THEN "no-roots"
            ELSE IF \E t \in MustKeep : Hidden(t) THEN "hidden-kept" ELSE "plain"
 PairSeq(S) == SetToSortSeq({SetToSortSeq(U, <) : U \in S}, PairLess)
 CaseGc == [n |-> N, par |-> par, decl |-> EdgeSeq(decl), up |-> up, role |-> role, sib |-> sib,
+           prov |-> prov, req |-> [t \in Nodes |-> IF req[t] THEN 1 ELSE 0],
            expect |-> [mustkeep |-> Mask(MustKeep), roots |-> Mask(BaseRoots \cup TestRoots), srcprotected |-> PairSeq(SrcProtected)],
            algo |-> [c \in 1..2 |-> LET r == (CHOOSE q \in qs : q.cons = Bools[c]).r IN
                                       [removed |-> Mask(r.removed), srcs |-> PairSeq(r.srcs)]],
